@@ -297,6 +297,15 @@ def coef_atoms(d, volume=True, spacetime=False):
         x1 = comp(["x"], 1)
         T2 = add(mul(x0, x1), p)
         out += [("T2", T2, False), ("T2*f+T2", add(mul(T2, f), T2), False)]
+    # divisors that are products / negative integer powers > 1 (operator precedence in the emitted text), and a
+    # subtraction of a product with the literal -1 (two folding rules cooperating)
+    out += [("quot-prod", ["div", p, mul(add(mul(f, f), c(1.5)), add(mul(g, g), c(2.0)))], True),
+            ("fm2", ["pow", add(mul(f, f), c(3.0)), -2], True),
+            ("sub-neg", ["sub", f, mul(c(-1.0), add(mul(g, g), p))], False),
+            ("sub-divm1", ["sub", f, ["div", add(mul(g, g), p), c(-1.0)]], True)]
+    # literals close to, but different from, the constants that folding treats specially (0, 1, -1)
+    out += [("near1", mul(c(1.000004), f), False), ("div-nearm1", ["div", f, c(-0.999995)], True),
+            ("tiny", mul(mul(c(1e-9), f), c(1e9)), False), ("sub-tiny", mul(["sub", mul(c(1e-9), f), c(2.5e-9)], c(1e9)), False)]
     return out
 
 
